@@ -297,11 +297,11 @@ class Check:
                 ok_all = ok_all and not bad
         # forbidden tokens anywhere in the Lean tree this property can depend on
         hits = []
-        for sub in ("TTModel", "TTGen", "TTProofs", "Drivers"):
-            for f in sorted((LEAN / sub).rglob("*.lean")):
-                for i, line in enumerate(strip_lean_comments(f.read_text()).splitlines(), 1):
-                    if FORBIDDEN.search(line):
-                        hits.append(f"{f.relative_to(LEAN)}:{i}: {line.strip()[:100]}")
+        # every package file this property's theorems and driver (transitively) import
+        for f in self.import_closure([props_rel, f"Drivers/{self.pid}.lean"]):
+            for i, line in enumerate(strip_lean_comments(f.read_text()).splitlines(), 1):
+                if FORBIDDEN.search(line):
+                    hits.append(f"{f.relative_to(LEAN)}:{i}: {line.strip()[:100]}")
         self.obligations.append(
             {"name": "no sorry/admit/axiom/native_decide/bv_decide/implemented_by/unsafe/maxHeartbeats 0",
              "kind": "grep", "ok": not hits, **({"detail": "; ".join(hits[:5])} if hits else {})}
@@ -316,6 +316,18 @@ class Check:
             )
             ok_all = ok_all and rc == 0
         return ok_all
+
+    def import_closure(self, roots):
+        """package-local files (TTModel/TTGen/TTProofs/Drivers) reachable through `import` from `roots`"""
+        seen, todo = [], [LEAN / r for r in roots]
+        while todo:
+            f = todo.pop()
+            if f in seen or not f.exists():
+                continue
+            seen.append(f)
+            for m in re.finditer(r"^\s*import\s+((?:TTModel|TTGen|TTProofs|Drivers)[\w.]*)", f.read_text(), re.M):
+                todo.append(LEAN / (m.group(1).replace(".", "/") + ".lean"))
+        return sorted(seen)
 
     def lean_side(self, gen_files: dict, targets: list[str], props_rel: str):
         """translate + build + audit. Returns (ok, broken) where broken lists what no longer checks."""
